@@ -66,10 +66,10 @@ def gen_macro(rng, name, slot, pprec, ienv, slots):
         if base == "destroy": ops.append(dict(op="destroy", slot=slot))
         if base == "qspace": ops.append(dict(op="qspace", slot=slot, nprocs=1, panel=ienv[0]))
     elif base == "query_new":
-        ops.append(dict(op="query", slot=slot, api=rng.choice([0, 1]), refact=0, nprocs=rng.choice([1, 2]), relax=ienv[1], panel=ienv[0], restore=True))
+        ops.append(dict(op="query", slot=slot, api=rng.choice([0, 1]), refact=0, nprocs=rng.choice([1, 2]), relax=ienv[1], panel=ienv[0], restore=False))
     elif base == "query_refact":
         ops.append(mk_factor(rng, "first", slot, pat, prec, ienv, rng.choice([0, 1])))
-        ops.append(dict(op="query", slot=slot, api=rng.choice([0, 1]), refact=1, nprocs=rng.choice([1, 2]), relax=ienv[1], panel=ienv[0], restore=True))
+        ops.append(dict(op="query", slot=slot, api=rng.choice([0, 1]), refact=1, nprocs=rng.choice([1, 2]), relax=ienv[1], panel=ienv[0], restore=False))
     elif base == "singular":
         ops.append(mk_factor(rng, "first", slot, pat, prec, ienv, rng.choice([0, 1]), style="singular"))
     elif base == "memfail":
@@ -241,10 +241,13 @@ def run(ctx):
     combos = [(m,) for m in MACROS] + list(itertools.product(MACROS, repeat=2))
     if not quick:
         combos += list(itertools.product(MACROS, repeat=3))
+    else:
+        combos += [tuple(ctx.rng.choice(MACROS) for _ in range(3)) for _ in range(300)]
     k = 0
     for combo in combos:
-        probes = [ctx.rng.choice(PROBES)] if len(combo) > 1 else PROBES
-        if not quick and len(combo) == 2: probes = PROBES
+        probes = ctx.rng.sample(PROBES, 2) if len(combo) > 1 else PROBES
+        if not quick and len(combo) == 2: probes = PROBES + PROBES
+        if not quick and len(combo) == 3: probes = ctx.rng.sample(PROBES, 4)
         for pb in probes:
             c = gen_case(ctx.rng, combo, pb)
             cj = {"hist": pl.case_to_json(c["hist"]), "fresh": pl.case_to_json(c["fresh"]), "probe_idx": c["probe_idx"], "meta": c["meta"]}
@@ -256,7 +259,10 @@ def run(ctx):
     by_key, tot, mm_all = {}, {}, []
     for job, r in zip(jobs, results):
         meta = job[2]["meta"]
-        ctx.count((r["tag"],), nontrivial=True, kind="probe:%s/%s" % (meta["probe"], meta["prec"]))
+        for i in range(r["nops"]):          # every executed op (history run and fresh run) is one evaluation
+            ctx.count((r["tag"], i), nontrivial=True, kind=None)
+        pk = "probe:%s/%s" % (meta["probe"], meta["prec"])
+        ctx.cov["histogram"][pk] = ctx.cov["histogram"].get(pk, 0) + 1
         hk = "prefix_len:%d" % len(meta["macros"])
         ctx.cov["histogram"][hk] = ctx.cov["histogram"].get(hk, 0) + 1
         for m in meta["macros"]:
@@ -301,7 +307,7 @@ def replay(ctx, obj):
     exe = c08.build(ctx, "hooks")
     drv = ctx.ocaml_model("persist")
     key = rep.get("key", {})
-    tries = 400 if key.get("kind") == "fixupL_order" else 1
+    tries = 400 if key.get("kind") in ("fixupL_order", "user_workspace_thread_overlap") else 1
     for t in range(tries):
         r = eval_pair((exe, drv, rep["case"], ctx.bdir, "replay"))
         hit = [f for f in r["fails"] if f["key"] == key] or ([] if key else r["fails"])
